@@ -101,8 +101,20 @@ fn behaviour(sc: &Scanner, ins: &[String]) -> Behaviour {
             .map(|i| {
                 let mut it = sc.find_iter(i);
                 let mut v = vec![];
+                // what peek_n(3) announces before every token is part of the behaviour (encoded into
+                // the stream as a pseudo token with type usize::MAX and a hash of the peek result)
+                let peek_hash = |it: &mut scnr::FindMatches| {
+                    let s = format!("{:?}", it.peek_n(3));
+                    let mut h = 0xcbf29ce484222325u64;
+                    for b in s.bytes() {
+                        h = (h ^ b as u64).wrapping_mul(0x100000001b3);
+                    }
+                    (usize::MAX, (h >> 32) as usize, (h & 0xffff_ffff) as usize, 0usize)
+                };
+                v.push(peek_hash(&mut it));
                 while let Some(m) = it.next() {
                     v.push((m.token_type(), m.start(), m.end(), it.current_mode()));
+                    v.push(peek_hash(&mut it));
                 }
                 v
             })
@@ -175,6 +187,16 @@ pub fn run(tier: Tier) -> ! {
                 }
                 let keys_before = cache_keys().len();
                 let built = fam[k].1.build_cached();
+                // the same build once more: its outcome must not change (a failing build fails again)
+                let again = fam[k].1.build_cached();
+                let again_same = match (&built, &again) {
+                    (Ok(a), Ok(b)) => behaviour(a, &ins) == behaviour(b, &ins),
+                    (Err(_), Err(_)) => true,
+                    _ => false,
+                };
+                if !again_same {
+                    return (usize::MAX, built.is_ok(), None, vec![]);
+                }
                 let keys_after = cache_keys();
                 let beh = built.as_ref().ok().map(|sc| behaviour(sc, &ins));
                 // a later build of every member of the state is still what it should be
@@ -193,6 +215,9 @@ pub fn run(tier: Tier) -> ! {
                     viol.add("", || Violation { key: String::new(), summary: format!("after building {:?}, build() of {:?} panicked: {p}", s.iter().map(|&m| &fam[m].0).collect::<Vec<_>>(), fam[k].0), replay: describe(&format!("panic: {p}")) });
                     // the lock may be poisoned now: every later build would panic
                     break 'bfs;
+                }
+                Ok((keys_before, _, _, _)) if keys_before == usize::MAX => {
+                    viol.add("", || Violation { key: String::new(), summary: format!("after building {:?}, two consecutive build() calls of {:?} disagree (Ok/Err or behaviour)", s.iter().map(|&m| &fam[m].0).collect::<Vec<_>>(), fam[k].0), replay: describe("the second of two identical consecutive builds differs from the first") });
                 }
                 Ok((keys_before, ok, beh, keys_after)) => {
                     let in_state = s.contains(&k);
